@@ -863,6 +863,8 @@ def identity_ok(op, facts, vc):
         return (Z(1) and arg(2)) or (Z(2) and arg(1))
     if op == "sub":
         return Z(2) and arg(1)
+    if op == "gsub":       # group subtraction: A − O = A; O − O is an identity, whichever representative is handed back
+        return (Z(2) and arg(1)) or (Z(1) and Z(2) and (arg(2) or vc == "ZERO"))
     if op == "mul":
         if isinstance(vc, tuple) and vc and vc[0] == "squared":
             return ("eq", (1, ()), (2, ())) in facts or Z(vc[1])
